@@ -17,7 +17,14 @@ fn rule(heads: Vec<HeadItem>, body: Vec<BodyItem>) -> Rule { Rule { heads, body 
 
 const T: Ty = Ty::U32;
 
-pub fn gen_byods<R: Src>(r: &mut R, _cfg: &GenCfg, ds: Ds, ternary: bool) -> Program {
+pub const N_PATS_BINARY: usize = 11;
+pub const N_PATS_TERNARY: usize = 15;
+
+pub fn gen_byods<R: Src>(r: &mut R, cfg: &GenCfg, ds: Ds, ternary: bool) -> Program { gen_byods_profile(r, cfg, ds, ternary, None) }
+
+/// `profile`: every reader of the program uses this one access pattern, and there is no negation / counting / collapse
+/// rule (programs whose provider builds exactly the indices of one pattern; the plans enumerate the patterns).
+pub fn gen_byods_profile<R: Src>(r: &mut R, _cfg: &GenCfg, ds: Ds, ternary: bool, profile: Option<usize>) -> Program {
    // KF-13..: trrel_uf mishandles facts that arrive inside a looping stratum; with the finding excluded the tagged
    // relation is only filled from inputs (non-recursive stratum) and read afterwards
    let recursive = !(ds == Ds::TrRelUf && _cfg.excluded("KF-13"));
@@ -100,6 +107,15 @@ pub fn gen_byods<R: Src>(r: &mut R, _cfg: &GenCfg, ds: Ds, ternary: bool) -> Pro
       let body = if r.chance(50) { vec![cl("tick", vec![av("i")]), sc] } else { vec![sc, cl("tick", vec![av("i")])] };
       p.rules.push(rule(vec![rh("k", v("x"), v("y"))], body));
    }
+   if recursive && !sparse && profile.is_none() && r.chance(25) {
+      // collapse: a hub that is already related to something gets related to every element (for the union-find based
+      // structures: many classes are absorbed, in arrival order or against it, into the hub's class within one stratum)
+      let wild = Arg::Wild;
+      p.rules.push(rule(
+         vec![rh("k", v("h"), v("y"))],
+         vec![cl("probe", vec![av("h")]), rc("k", av("h"), wild.clone()), rc("k", av("y"), wild)],
+      ));
+   }
    if recursive && ternary && r.chance(50) {
       // facts move from key to key: keys pause and resume
       p.rules.push(rule(vec![rh("k2", v("x"), v("y"))], vec![rc("k", av("x"), av("y")), cl("knext", vec![av("k"), av("k2")])]));
@@ -107,11 +123,24 @@ pub fn gen_byods<R: Src>(r: &mut R, _cfg: &GenCfg, ds: Ds, ternary: bool) -> Pro
    // ---- readers
    let n_readers = r.range(3, 6);
    let mut oi = 0;
+   // narrow profile: all readers of the program use one or two access patterns (the provider then only builds the
+   // indices those patterns need), and the negation / counting rules are mostly left out
+   let n_pats = if ternary { N_PATS_TERNARY } else { N_PATS_BINARY };
+   let narrow: Option<Vec<usize>> = match profile {
+      Some(p) => Some(vec![p % n_pats]),
+      None => if r.chance(30) { Some((0..r.range(1, 2)).map(|_| r.below(n_pats)).collect()) } else { None },
+   };
    for _ in 0..n_readers {
       oi += 1;
       let inside = !sparse && recursive && r.chance(25); // reader that feeds R again (inside the recursive stratum)
       let on = format!("out{oi}");
-      let mut pat = r.below(if ternary { 12 } else { 8 });
+      let mut pat = match &narrow {
+         Some(ps) => *r.pick(ps),
+         None => r.below(n_pats),
+      };
+      if ternary && pat == 12 && !sparse {
+         pat = 0;
+      }
       if sparse && oi == 1 {
          pat = 12;
       }
@@ -126,6 +155,8 @@ pub fn gen_byods<R: Src>(r: &mut R, _cfg: &GenCfg, ds: Ds, ternary: bool) -> Pro
             10 => 4,
             11 => 5,
             12 => 7,
+            13 => 5,
+            14 => 4,
             p => p,
          };
       }
@@ -138,6 +169,11 @@ pub fn gen_byods<R: Src>(r: &mut R, _cfg: &GenCfg, ds: Ds, ternary: bool) -> Pro
          (false, 4) => (vec![], vec![av("x"), av("x")], vec!["x", "x"]),
          (false, 5) => (vec![], vec![Arg::Expr(Expr::Int(r.range(0, 3), T)), av("y")], vec!["y", "y"]),
          (false, 6) => (vec![cl("pairs", vec![av("x"), av("w")])], vec![av("x"), Arg::Wild], vec!["x", "w"]),
+         // three clauses, both columns bound (the rule gets the emptiness guard over the full index)
+         (false, 8) => (vec![cl("probe", vec![av("x")]), cl("nxt", vec![av("x"), av("y")])], vec![av("x"), av("y")], vec!["x", "y"]),
+         (false, 9) => (vec![cl("probe", vec![av("y")]), cl("pairs", vec![av("x"), av("y")])], vec![av("x"), av("y")], vec!["x", "y"]),
+         // one column bound, a further clause after R (three clauses: the emptiness guard is consulted on that index)
+         (false, 10) => (vec![cl("probe", vec![av("y")])], vec![av("x"), av("y")], vec!["x", "y"]),
          (false, _) => (vec![cl("probe", vec![av("x")]), cl("nxt", vec![av("x"), av("y")])], vec![av("y"), av("z")], vec!["x", "z"]),
          (true, 0) => (vec![], vec![av("k"), av("x"), av("y")], vec!["x", "y"]),
          (true, 1) => (vec![cl("keys", vec![av("k")])], vec![av("k"), av("x"), av("y")], vec!["x", "y"]),
@@ -152,14 +188,21 @@ pub fn gen_byods<R: Src>(r: &mut R, _cfg: &GenCfg, ds: Ds, ternary: bool) -> Pro
          (true, 10) => (vec![cl("probe", vec![av("x")]), cl("nxt", vec![av("x"), av("y")])], vec![av("k"), av("x"), av("y")], vec!["x", "y"]),
          (true, 11) => (vec![cl("probe", vec![av("y")]), cl("pairs", vec![av("x"), av("y")])], vec![av("k"), av("x"), av("y")], vec!["x", "y"]),
          (true, 12) => (vec![cl("want", vec![av("x"), av("y")]), cl("want", vec![av("x"), av("w")])], vec![av("k"), av("x"), av("y")], vec!["x", "y"]),
+         (true, 13) => (vec![cl("probe", vec![av("y")])], vec![av("k"), av("x"), av("y")], vec!["x", "y"]),
+         (true, 14) => (vec![cl("probe", vec![av("x")])], vec![av("k"), av("x"), av("y")], vec!["x", "y"]),
          (true, _) => (vec![cl("keys", vec![av("k")])], vec![av("k"), Arg::Wild, av("y")], vec!["y", "y"]),
       };
       // R first or after the binding clauses
       let rclause = cl("rr", rargs);
-      if r.chance(25) && !body.is_empty() && pat != 7 && pat != 12 {
+      let trailing = (ternary && (pat == 13 || pat == 14)) || (!ternary && pat == 10);
+      if r.chance(25) && !body.is_empty() && pat != 7 && pat != 12 && !trailing {
          body.insert(0, rclause);
       } else {
          body.push(rclause);
+      }
+      if trailing {
+         // the clause after R only filters on a variable R has bound
+         body.push(if ternary { cl("keys", vec![av("k")]) } else { cl("probe", vec![av("x")]) });
       }
       if inside {
          // feed R from the reader: R(h0, z) <-- ..., nxt(h1, z)
@@ -194,7 +237,8 @@ pub fn gen_byods<R: Src>(r: &mut R, _cfg: &GenCfg, ds: Ds, ternary: bool) -> Pro
    }
    // negation and counting in a later stratum
    let key_bound_only = ds == Ds::TrRelUf && ternary && _cfg.excluded("KF-14");
-   if r.chance(60) && !key_bound_only {
+   let extras = profile.is_none() && (narrow.is_none() || r.chance(30));
+   if extras && r.chance(60) && !key_bound_only {
       p.rels.push(rel("absent", vec![T, T], false));
       let neg = if ternary {
          BodyItem::Neg { rel: "rr".into(), args: vec![Arg::Wild, av("x"), av("y")] }
@@ -203,7 +247,7 @@ pub fn gen_byods<R: Src>(r: &mut R, _cfg: &GenCfg, ds: Ds, ternary: bool) -> Pro
       };
       p.rules.push(rule(vec![hd("absent", vec![v("x"), v("y")])], vec![cl("pairs", vec![av("x"), av("y")]), neg]));
    }
-   if r.chance(60) && !key_bound_only {
+   if extras && r.chance(60) && !key_bound_only {
       p.rels.push(rel("cnt", vec![T, Ty::I32], false));
       let args = if ternary { vec![Arg::Wild, av("x"), Arg::Wild] } else { vec![av("x"), Arg::Wild] };
       p.rules.push(rule(
@@ -211,7 +255,7 @@ pub fn gen_byods<R: Src>(r: &mut R, _cfg: &GenCfg, ds: Ds, ternary: bool) -> Pro
          vec![cl("probe", vec![av("x")]), BodyItem::Agg { pat: Pat::Var("n".into()), agg: Aggregator::Count, bound: vec![], rel: "rr".into(), args }],
       ));
    }
-   if r.chance(50) && !key_bound_only {
+   if extras && r.chance(50) && !key_bound_only {
       // the same census through the last column (reverse index)
       p.rels.push(rel("cntr", vec![T, Ty::I32], false));
       let args = if ternary { vec![Arg::Wild, Arg::Wild, av("x")] } else { vec![Arg::Wild, av("x")] };
